@@ -327,7 +327,10 @@ fn prior_life<K: Kit>(rig: &mut Rig<K>, sc: &Scenario, seq: &[u8], same_space: b
     } else {
         (rig.goal.samples[0].clone(), std::sync::Arc::new(HGoal::<K>::new(vec![(rig.start.clone(), sc.goal_balls[0].1)], vec![rig.start.clone()], dist)))
     };
-    let pd = std::sync::Arc::new(crate::drv::Pd::<K> { space: space.clone(), start_states: vec![p_start], goal });
+    // (other-checker life, every other sequence: the very same problem-definition Arc - a planner that
+    // recognises "the same problem" must still notice that the checker is another one)
+    let same_pd = same_space && seq.iter().map(|x| *x as usize).sum::<usize>() % 2 == 0;
+    let pd = if same_pd { rig.pd.clone() } else { std::sync::Arc::new(crate::drv::Pd::<K> { space: space.clone(), start_states: vec![p_start], goal }) };
     let n = seq.len().max(1);
     if same_space {
         let free = std::sync::Arc::new(crate::scen::build_world::<K>(&pspec, &crate::scen::WorldSpec { name: "free".into(), obst: vec![] }));
